@@ -447,7 +447,7 @@ def r4_caches_and_permutations(ctx):
     ctx.floor("functions scanned for the permute-twice idiom", scanned, 150)
     for fi, p, r, x in sites:
         ctx.ob(fi.where, f"`{r}` was computed from entries taken in the order `{p}`; indexing it with `{p}` again permutes twice instead of restoring the original order "
-               f"(use np.argsort({p}) or scatter into out[{p}])", False, u(x), key=f"C14-R4|permute-twice|{fi.module.name}|{fi.qualname}|{r}")
+               f"(use np.argsort({p}) or scatter into out[{p}])", False, u(x), key=f"C14-R4|permute-twice|{fi.module.name}|{fi.qualname}|{r}", definite=True)
     ctx.ob("bionumpy.genomic_data, bionumpy.sequence", f"{scanned} functions scanned: no value computed on permuted entries is indexed by the same permutation again", True, "",
            key="C14-R4|permute-twice-scan")
     _by_name_lookup(ctx)
